@@ -1156,12 +1156,29 @@ def glob_anchor(rep):
             if isinstance(a, ast.Assign) and isinstance(a.value, ast.Call) \
                     and unparse(a.value.func) == "glob.glob" and a.value.args \
                     and isinstance(a.targets[0], ast.Name):
-                consts = [c.value for c in ast.walk(a.value.args[0])
-                          if isinstance(c, ast.Constant) and isinstance(c.value, str)
-                          and "*" in c.value]
-                if consts:
-                    last = consts[-1]
-                    prefix = last[:last.index("*")].rsplit("/", 1)[-1]
+                # the literal tail of the pattern: the trailing string constants of the
+                # concatenation / f-string
+                parts = []
+
+                def flat(e):
+                    if isinstance(e, ast.BinOp) and isinstance(e.op, ast.Add):
+                        flat(e.left)
+                        flat(e.right)
+                    elif isinstance(e, ast.JoinedStr):
+                        for v in e.values:
+                            parts.append(v.value if isinstance(v, ast.Constant) else None)
+                    elif isinstance(e, ast.Constant) and isinstance(e.value, str):
+                        parts.append(e.value)
+                    else:
+                        parts.append(None)
+                flat(a.value.args[0])
+                tail = ""
+                for p_ in reversed(parts):
+                    if p_ is None:
+                        break
+                    tail = p_ + tail
+                if "*" in tail:
+                    prefix = tail[:tail.index("*")].rsplit("/", 1)[-1]
                     if prefix:
                         globs[a.targets[0].id] = prefix
         # names holding (a selection of) the globbed paths: aliases and filtered copies
@@ -1755,6 +1772,11 @@ def catalogue_roundtrip(rep):
         if isinstance(e, ast.Call) and unparse(e.func) == "list":
             return "intlist"
         if isinstance(e, ast.Call) and unparse(e.func) == "str" and e.args:
+            inner = e.args[0]
+            if isinstance(inner, ast.Call) and unparse(inner.func) == "list":
+                return "str-intlist"
+            if isinstance(inner, ast.Name) and role_of(it_fn, inner.id) not in (None, "local"):
+                return "str-num"        # str(<loop variable / parameter>): one value
             return "strlist"
         if isinstance(e, ast.Name):
             defs = [a for a in assignments_to(it_fn, e.id) if isinstance(a, ast.Assign)]
@@ -1796,6 +1818,10 @@ def catalogue_roundtrip(rep):
         def addhole(e):
             nonlocal outs
             kind = hole_kind(e)
+            if kind == "str-intlist":
+                e, kind = e.args[0], "intlist"
+            elif kind == "str-num":
+                e, kind = e.args[0], "num"
             src = e.args[0] if kind in ("intlist", "strlist") and e.args else e
             name = unparse(src)
             if kind == "num":
